@@ -8,9 +8,10 @@ Proof. exact generalize_address_free. Qed.
 Print Assumptions C17_generalize_address_free.
 
 (* the general lemma, proved once: a safe site renders no address at the default level when
-   client-address logging is off — for every value its arguments can take *)
+   client-address logging is off — for every value its arguments can take: any error shape at a
+   sanitised argument, and at a raw error argument every value its PRODUCER can return ([env_ok]) *)
 Theorem C17_safe_site_no_address :
-  forall s ev, safe_site s = true -> log_client_ip ev = false ->
+  forall s ev, safe_site s = true -> env_ok s ev = true -> log_client_ip ev = false ->
     has_addr (output default_level s ev) = false.
 Proof. exact safe_site_no_address. Qed.
 Print Assumptions C17_safe_site_no_address.
@@ -39,6 +40,39 @@ Proof. exact output_one_gate. Qed.
 Print Assumptions C17_one_gate_for_all_sites.
 
 Theorem C17_disabled_is_every_non_true_value :
-  forall s ev, safe_site s = true -> env_value ev <> EVTrue -> has_addr (output default_level s ev) = false.
+  forall s ev, safe_site s = true -> env_ok s ev = true -> env_value ev <> EVTrue -> has_addr (output default_level s ev) = false.
 Proof. exact disabled_means_every_non_true_value. Qed.
 Print Assumptions C17_disabled_is_every_non_true_value.
+
+(* Fourth wave — producers.  An error argument that is logged as its producer returned it is safe
+   exactly when the producer is address-free by construction: nothing it can return mentions the
+   client address (a bare errno from a system call, the "set"/"raw-control" OpError of package net
+   that names the LOCAL address only, Accept's listener address, the covert's dial, reviewed
+   producers) ... *)
+Theorem C17_address_free_producer_sound :
+  forall p e, addr_free_producer p = true -> can_produce p e = true -> mentions e = false.
+Proof. exact producer_sound. Qed.
+Print Assumptions C17_address_free_producer_sound.
+
+(* ... and every other producer kind — File(), Read, Write, Close of the connection, any method of a
+   layered connection, net.FileConn, GeoIP, transports, ... — can return a value that does *)
+Theorem C17_other_producers_can_leak :
+  forall p, addr_free_producer p = false -> can_produce p leak_witness = true /\ mentions leak_witness = true.
+Proof. exact producer_complete. Qed.
+Print Assumptions C17_other_producers_can_leak.
+
+(* an unsafe site is a violated obligation WITH a failing run: an environment consistent with the
+   site's producers, client-address logging off, and the address in the line *)
+Theorem C17_unsafe_site_has_failing_run :
+  forall s, safe_site s = false ->
+    env_ok s (wit_env s) = true /\ log_client_ip (wit_env s) = false /\
+    has_addr (output default_level s (wit_env s)) = true.
+Proof. exact unsafe_site_fails. Qed.
+Print Assumptions C17_unsafe_site_has_failing_run.
+
+(* so [safe_site] is exact: safe <-> no consistent run with logging off prints the address *)
+Theorem C17_safe_site_exact :
+  forall s, safe_site s = true <->
+    (forall ev, env_ok s ev = true -> log_client_ip ev = false -> has_addr (output default_level s ev) = false).
+Proof. exact safe_site_iff. Qed.
+Print Assumptions C17_safe_site_exact.
